@@ -202,11 +202,18 @@ def line_specs(tier):
                 for pi in range(len(PROPS)):
                     for sep in SEPS:
                         out.append({'shape': shape, 'frame': frame, 'sep': sep, 'props': pi})
+    # (2b) what stands between the parameter list and the properties: blanks and tabs around the '#', or nothing before it
+    for shape in SHAPES:
+        for frame in ('image', 'fk5'):
+            for sep in ('paren_comma', 'space', 'paren_tab'):
+                for hs in ('\t# ', ' #\t', '\t#\t', '# ', '  #  '):
+                    for pi in (1, 3):
+                        out.append({'shape': shape, 'frame': frame, 'sep': sep, 'hashsep': hs, 'props': pi})
     # (3) text spellings
     for frame in ('image', 'fk5', 'galactic'):
         for style in ('brace', 'dquote', 'squote'):
             for odd in (False, True):
-                for txt in ('hello world', 'semi;colon inside', 'eq=sign and # hash', 'MiXeD Case'):
+                for txt in ('hello world', 'semi;colon inside', 'eq=sign and # hash', 'MiXeD Case', 'two  blanks and a\ttab'):
                     if odd and '#' in txt:
                         continue
                     out.append({'shape': 'text', 'frame': frame, 'text_style': style, 'odd_text': odd, 'text': txt})
